@@ -37,7 +37,7 @@ PROPS["C11"] = dict(
 import os, subprocess, json, re, time, shutil, concurrent.futures
 
 VERIF = os.path.dirname(os.path.dirname(os.path.abspath(__file__)))
-BIN = os.path.join(VERIF, "target", "release")
+BIN = os.path.join(os.environ.get("VERIF_TARGET_DIR") or os.path.join(VERIF, "target"), "release")
 DRIVER = os.path.join(VERIF, "lean", ".lake", "build", "bin", "driver")
 
 
@@ -411,7 +411,7 @@ def extra_c02(pid, tier, seed, workdir, known, write_replay):
 
 PROPS["C02"] = dict(
     lean_modules=["WgslVerif.Props.C02"],
-    theorems=["WgslVerif.C02_partial", "WgslVerif.C02_counterexample", "WgslVerif.bindingType_accepted", "WgslVerif.classArm_spec", "WgslVerif.viewDim_matches"],
+    theorems=["WgslVerif.C02_partial", "WgslVerif.C02_pipeline", "WgslVerif.C02_counterexample", "WgslVerif.bindingType_accepted", "WgslVerif.classArm_spec", "WgslVerif.viewDim_matches"],
     streams=lambda tier, seed: (
         [("fixtures",), ("names",), ("gen", "textures", seed, 400), ("gen", "general", seed, 300), ("gen", "bindings", seed, 100)] if tier == "quick" else
         [("fixtures",), ("names",), ("gen", "textures", seed, 8000), ("gen", "general", seed, 6000), ("gen", "bindings", seed, 2000), ("gen", "scale", seed, 200)]),
@@ -586,6 +586,19 @@ def extra_c16(pid, tier, seed, workdir, known, write_replay):
             items.append(("c16#big-source-fallback", f"embedded source > 64 KiB, formatter fault '{fault}': outcome {oc} {detail[:100]}, same program as with the formatter off: {same}", cid, True))
     if not any(t[0].startswith("big:") for t in trials):
         items.append(("c16#harness-big", "the large embedded source was not run: " + err, "", False))
+    # (c) concurrent calls in one process on DIFFERENT large shaders with the formatter on: every result must carry the input of
+    #     ITS OWN call as SOURCE (whatever a formatter path shares between calls must not mix them up)
+    bigs = write_stream_file([("big", 260, 4 if tier == "quick" else 10), ("gen", "unicode", seed, 12)], os.path.join(workdir, "bigs.cases"))
+    rb = subprocess.run([os.path.join(BIN, "determinism"), "--cases", bigs, "--opts", "96,144", "--children", "0", "--threads", "6", "--expect-source"],
+                        stdout=subprocess.PIPE, stderr=subprocess.PIPE, text=True)
+    for line in rb.stdout.split("\n"):
+        if line.startswith("(source-mismatch"):
+            t = parse_sexp(line)[0]
+            items.append(("c16#source-under-concurrent-calls", f"case {sx(t[1])} option set {t[2]}, 6 threads, rustfmt on: {sx(t[3])}", sx(t[1]), True))
+        elif line.startswith("(summary"):
+            cov["concurrent_source_check"] = line[:300]
+    if "concurrent_source_check" not in cov or "(source-checked true" not in cov["concurrent_source_check"]:
+        items.append(("c16#harness-concurrent", "concurrent source check gave no summary: " + rb.stderr[-300:], "", False))
     viol, kn = classify_and_report(pid, items, known, write_replay, {})
     return cov, viol, kn, []
 
@@ -938,8 +951,10 @@ def extra_c10(pid, tier, seed, workdir, known, write_replay):
 
 
 PROPS["C10"] = dict(
-    lean_modules=["WgslVerif.Props.C10"],
-    theorems=["WgslVerif.C10_leaf", "WgslVerif.C10_struct_algorithm", "WgslVerif.C10_offsets_partial"],
+    lean_modules=["WgslVerif.Props.C10", "WgslVerif.Props.C10Struct"],
+    theorems=["WgslVerif.C10_leaf", "WgslVerif.C10_struct_algorithm", "WgslVerif.C10_offsets_partial",
+              "WgslVerif.C10S.C10_struct", "WgslVerif.C10S.C10_struct_exec", "WgslVerif.C10S.C10_struct_exec_offsets",
+              "WgslVerif.C10S.meta_of_natural", "WgslVerif.C10S.emitted_of_gen", "WgslVerif.C10S.structMeta_sound", "WgslVerif.C10S.Meta.det"],
     driver_props=["C10"],
     streams=lambda tier, seed: [("gen", "structs", seed, 100 if tier == "quick" else 3000), ("fixtures",), ("types",), ("names",), ("variants",)],
     opts=q_opts([20, 68, 21], [20, 22, 68, 21, 23]),
